@@ -1059,6 +1059,14 @@ fn check_substores(rep: &mut Report, dir: &std::path::Path, i: usize) {
     let st1 = match load(&p) { Ok(Ok(s)) => s, Ok(Err(e)) => { rep.fail("oracle", "C05/substores/load-fails", ctx, "the store loads", &format!("{}", e)); std::fs::remove_dir_all(&sub).ok(); return; } Err(m) => { rep.fail("panic", "C05/substores/load-panics", ctx, "the store loads", &m); std::fs::remove_dir_all(&sub).ok(); return; } };
     let d1 = describe(&st1);
     if sub_has_id && d1[..want_ids.len()] != want_ids[..] { rep.fail("oracle", "C05/substores/identifiers-differ-from-the-documents", ctx.clone(), &format!("{:?}", want_ids), &format!("{:?}", &d1[..want_ids.len().min(d1.len())])); }
+    // a sub-store is found by the identifier it carries
+    for ss in st1.substores() {
+        if let Some(id) = ss.id() {
+            rep.count("json:substores:lookup-by-identifier");
+            let found = guarded(std::panic::AssertUnwindSafe(|| st1.substore(id).map(|x| x.handle())));
+            if found != Ok(Some(ss.handle())) { rep.fail("oracle", "C05/substores/not-found-by-its-identifier", ctx.clone(), &format!("store.substore({:?}) is the sub-store that carries that identifier", id), &format!("{:?}", found)); }
+        }
+    }
     if d1.iter().filter(|l| l.starts_with("annotation")).count() != 2 + 2 * nsub { rep.fail("oracle", "C05/substores/annotations-missing", ctx.clone(), &format!("{} annotations", 2 + 2 * nsub), &format!("{:?}", d1)); }
     let read_all = |dir: &std::path::Path| -> Vec<(String, String)> { let mut v: Vec<(String, String)> = std::fs::read_dir(dir).map(|rd| rd.flatten().filter_map(|e| std::fs::read_to_string(e.path()).ok().map(|t| (e.file_name().to_string_lossy().to_string(), t))).collect()).unwrap_or_default(); v.sort(); v };
     if let Err(e) = guarded(std::panic::AssertUnwindSafe(|| st1.save())).map_err(|m| m).and_then(|r| r.map_err(|e| format!("{}", e))) { rep.fail("oracle", "C05/substores/save-fails", ctx.clone(), "saved", &e); std::fs::remove_dir_all(&sub).ok(); return; }
